@@ -380,6 +380,57 @@ def run(ctx) -> None:
               "config._parse_config: pep440_version is not the PEP440 form of current_version", unparse(pd) if pd is not None else "", loc=pcf.loc())
     to_pep440_rule(ctx, "R5")
     printed_pep440_rule(ctx, "R5")
+    derived_pattern_eval(ctx, "R5")
+
+
+def derived_pattern_eval(ctx, rule: str) -> None:
+    """v2patterns._convert_to_pep440 evaluated on the README's patterns and on one pattern per zero-padded part: in the derived
+    pattern no zero-padded part stands first or right after a dot (a PEP 440 release component has no leading zeros), the text
+    has no `v` prefix and no separator other than `.`, and the tag and its number stand once, together, at the end."""
+    import re as _re
+    from sa.model import CannotFold, EvalError
+    prog = ctx.prog
+    cv = prog.function("v2patterns._convert_to_pep440")
+    fields = prog.const("v2patterns", "PATTERN_PART_FIELDS")
+    subs = prog.const("v2patterns", "PEP440_PART_SUBSTITUTIONS")
+    padded = sorted(p_ for p_, s_ in subs.items() if p_ not in ("TAG", "PYTAG"))
+    names = sorted(fields, key=len, reverse=True)
+
+    def tokens(text: str) -> T.List[T.Tuple[str, int]]:
+        out, i = [], 0
+        while i < len(text):
+            hit = next((n_ for n_ in names if text.startswith(n_, i)), None)
+            out.append((hit or text[i], i))
+            i += len(hit) if hit else 1
+        return out
+    stubs = {"re.subn": lambda f, node: _re.subn(*[f(a) for a in node.args]), "re.sub": lambda f, node: _re.sub(*[f(a) for a in node.args])}
+    pats = ["vYYYY0M.BUILD[-TAG]", "vYYYY.0M.BUILD[-TAG]", "MAJOR.MINOR.PATCH[-TAGNUM]", "MAJOR.MINOR.PATCH[PYTAGNUM]", "vMAJOR.MINOR.PATCH", "YYYY.0M.0D", "vYYYY.0W.BUILD[-TAG]",
+            "YYYY.0M.BUILD[PYTAGNUM]", "0Y.0M.0D.BUILD", "vGGGG.0V.PATCH[-TAG[NUM]]", "YYYY.BUILD[-TAG]"] + [f"vMAJOR.{p_}.PATCH[-TAG]" for p_ in padded] + [f"{p_}.MINOR[PYTAGNUM]" for p_ in padded]
+    wrong: T.List[str] = []
+    n = 0
+    try:
+        for pat in pats:
+            try:
+                got, _ys = prog.run_body(cv, {cv.params[0]: pat, "__strict__": True, "__stubs__": stubs})
+            except EvalError as ex:
+                got = None
+                wrong.append(f"{pat!r}: {ex}")
+            n += 1
+            if not isinstance(got, str):
+                continue
+            toks = tokens(got)
+            lead = [t_ for t_, i_ in toks if t_ in padded and (i_ == 0 or got[i_ - 1] == ".")]
+            stray = sorted(set(_re.findall(r"[^a-zA-Z0-9.!\[\]]", got)))
+            tag_ok = [t_ for t_, _i in toks].count("PYTAG") == 1 and [t_ for t_, _i in toks].count("NUM") == 1 and got.rstrip("]").endswith("PYTAGNUM")
+            if (lead or stray or got.startswith("v") or not tag_ok) and len(wrong) < 4:
+                why = (f"zero-padded {lead} as a dot-separated component" if lead else f"characters {stray}" if stray else "a `v` prefix" if got.startswith("v") else "PYTAG / NUM not once, adjacent, at the end")
+                wrong.append(f"{pat!r} -> {got!r}: {why}")
+    except (CannotFold, TypeError, AttributeError, KeyError, ValueError, IndexError) as ex:
+        ctx.observe(f"{cv.fq} not evaluated ({type(ex).__name__}: {str(ex)[:80]})")
+        return
+    ctx.check(rule, not wrong, f"_convert_to_pep440: no leading-zero component, no prefix / separators, tag and number once at the end ({n} patterns evaluated)",
+              "v2patterns._convert_to_pep440: the derived {pep440_version} pattern keeps a zero-padded component (or a prefix / separator / second tag)",
+              "; ".join(wrong[:2]) + ": the text written for {pep440_version} is not the PEP 440 form of the version", loc=cv.loc(), witness={"version_pattern": wrong[0].split(" -> ")[0] if wrong else ""})
 
 
 def printed_pep440_rule(ctx, rule: str) -> None:
